@@ -122,6 +122,11 @@ def deferErr (scalar : Bool) (r : R Val) : R Val :=
   match r with
   | .error (.raised c) => if scalar then .error (.raised c) else .error (.unmodelled "error inside a lazy list")
   | r => r
+/-- the same for the lazily consumed results of map / filter / vectorise / scan -/
+def lazyErr {α} (r : R α) : R α :=
+  match r with
+  | .error (.raised _) => .error (.unmodelled "error inside a lazy list")
+  | r => r
 def isScalar : Val → Bool
   | .list _ => false
   | _ => true
